@@ -315,6 +315,16 @@ def run(case):
             shape, data = _grid(rng)
             n = case['n']
             comps = [_rand_comp(rng, shape) for _ in range(n)]
+            # components of one island often share parameter values exactly (psf-fixed components share theta, sx, sy;
+            # summits on one row share xo): any per-call caching keyed on a value must survive that
+            if n > 1 and rng.random() < 0.5:
+                shared = [nm for nm in ('theta', 'sx', 'sy', 'xo', 'yo', 'amp') if rng.random() < 0.45] or ['theta']
+                for c in comps[1:]:
+                    if rng.random() < 0.8:
+                        for nm in shared:
+                            c[nm] = comps[0][nm]
+                o.see('shared_parameters', ','.join(shared))
+                o.count('cases_with_components_sharing_values')
             free = []
             for k in range(n):
                 if rng.random() < 0.5:
